@@ -131,6 +131,9 @@ func observeC07(r *astRun) interface{} {
 		switch wk.Mode {
 		case "pass":
 			v = pgs.PassThroughVisitor(v)
+			// a second pass-through visitor alive in the process is a different visitor: whatever it
+			// sees shows up in the trace under visitor id 99
+			_ = pgs.PassThroughVisitor(polVisitor{99, run})
 		case "nil":
 			v = pgs.NilVisitor()
 		}
